@@ -56,3 +56,34 @@ Proof.
   destruct (Z.testbit mask (Z.of_nat q)) eqn:E; [apply H; exact E | reflexivity].
 Qed.
 Print Assumptions C07_masked_load_reads_enabled_lanes_only.
+
+(** * Reads as well as writes of the matmul micro-kernels, from the source.  The index expressions of every
+    a / b / c access of interior_block_matmul_impl<1..5>, _scalar_impl and _mask_impl as translated on this run
+    (lib/cxx2v.py) equal [model_kernel_accesses]; with the block inside the matrices they are all in bounds:
+    the scalar read of A, the W-wide loads of B and the W-wide stores of C. *)
+From FastorV Require Import Gen.GeneratedAccess Proofs.GenAccessEq.
+Theorem C07_kernel_accesses_in_bounds :
+  forall C W M K N R i j ii k n arr idx,
+    In (arr, idx) (model_kernel_accesses C W K N R i j ii k n) ->
+    i + ii * R + n < M -> k < K -> j + C * W <= N ->
+    match arr with 0 => idx < M * K | 1 => idx + W <= K * N | _ => idx + W <= M * N end.
+Proof. exact kernel_accesses_in_bounds. Qed.
+Print Assumptions C07_kernel_accesses_in_bounds.
+
+Theorem C07_source_kernel_accesses :
+  forall W M K N R i j ii k n,
+    gen_mmkernel1_accesses W M K N R i j ii k n = model_kernel_accesses 1 W K N R i j ii k n /\
+    gen_mmkernel2_accesses W M K N R i j ii k n = model_kernel_accesses 2 W K N R i j ii k n /\
+    gen_mmkernel3_accesses W M K N R i j ii k n = model_kernel_accesses 3 W K N R i j ii k n /\
+    gen_mmkernel4_accesses W M K N R i j ii k n = model_kernel_accesses 4 W K N R i j ii k n /\
+    gen_mmkernel5_accesses W M K N R i j ii k n = model_kernel_accesses 5 W K N R i j ii k n /\
+    gen_mmkernel_scalar_accesses W M K N R i j ii k n = model_kernel_accesses 1 W K N R i j ii k n /\
+    gen_mmkernel_mask0_accesses W M K N R i j ii k n = model_kernel_accesses 1 W K N R i j ii k n /\
+    gen_mmkernel_mask1_accesses W M K N R i j ii k n = model_kernel_accesses 1 W K N R i j ii k n.
+Proof. exact gen_mmkernel_accesses_eq. Qed.
+
+Theorem C07_source_transpose_accesses :
+  forall W M N i ii j jj v,
+    gen_transpose_avx_accesses W M N i ii j jj v = model_transpose_avx W M N i ii j jj v /\
+    gen_transpose_plain_accesses M N i j = [(1, j * M + i); (0, i * N + j)].
+Proof. exact gen_transpose_accesses_eq. Qed.
